@@ -154,7 +154,7 @@ def generate(rng, idx, tier, variant):
     return {'spec': spec, 'ops': ops, 'np_err': np_err}
 
 
-def build_triplet(fsic, spec):
+def build_triplet(fsic, spec, ctx=None):
     from fsic.extensions import TracerMixin
 
     span = spans.make_span(spec['span'])
@@ -162,7 +162,9 @@ def build_triplet(fsic, spec):
         base = probes.make_scripted(fsic, spec)
         endo, check = list(spec['endo']), list(spec['check'])
     else:
-        raw = fsic.build_model(fsic.parse_model(spec['script']))
+        raw = probes.build_parser_class(fsic, spec, ctx)
+        if raw is None:
+            raise S.BuildFailed()
         base = probes.make_probed(fsic, raw)
         endo, check = list(raw.ENDOGENOUS), list(raw.CHECK)
     if spec.get('aliases'):
@@ -215,12 +217,10 @@ def execute(schedule, ctx):
     fsic = import_fsic()
     spec = schedule['spec']
     try:
-        (A, B, C), span, endo, check = build_triplet(fsic, spec)
-    except Exception as e:
-        if spec['kind'] == 'parser':
-            ctx.log('build-failed', type(e).__name__)
-            return
-        raise
+        (A, B, C), span, endo, check = build_triplet(fsic, spec, ctx)
+    except S.BuildFailed:
+        ctx.log('build-failed')
+        return
     n = len(span)
     lags, leads = spec['lags'], spec['leads']
     chk = lambda sig, ok, detail=None: ctx.check('C17', sig, ok, detail)  # noqa: E731
